@@ -1306,6 +1306,10 @@ class HasTraits(CHasTraits, metaclass=MetaHasTraits):
         # Save all traits which do not have any 'transient' metadata:
         result = self.trait_get(transient=is_none)
 
+        # Add all ordinary traits that explicitly have 'transient = False'
+        # metadata:
+        result.update(self.trait_get(type="trait", transient=False))
+
         # Add all delegate traits that explicitly have 'transient = False'
         # metadata:
         dic = self.__dict__
